@@ -549,6 +549,12 @@ impl Editor {
                         _ => "add_use",
                     });
                     p.module_mut(*module).uses.push(u);
+                    if p.file_graph_cyclic() {
+                        // veryl panics on file-level cycles (see Project::file_graph_cyclic)
+                        p.module_mut(*module).uses.pop();
+                        a.classes.clear();
+                        a.classes.push("edit_rejected_file_cycle");
+                    }
                 }
                 self.flush(p, ws, None, &mut a);
             }
